@@ -226,5 +226,15 @@ class H3Ops:
             end = h3.h3_to_geo(link.end)
             res = h3.h3_get_resolution(link.start)
             lat = start[0] + ((end[0] - start[0]) * ratio_trip_experienced)
-            lon = start[1] + ((end[1] - start[1]) * ratio_trip_experienced)
+            # take the short way round when the link crosses the 180th meridian
+            delta_lon = end[1] - start[1]
+            if delta_lon > 180:
+                delta_lon -= 360
+            elif delta_lon < -180:
+                delta_lon += 360
+            lon = start[1] + (delta_lon * ratio_trip_experienced)
+            if lon > 180:
+                lon -= 360
+            elif lon < -180:
+                lon += 360
             return h3.geo_to_h3(lat, lon, res)
